@@ -623,12 +623,33 @@ def r86(e: Engine, rep: Report):
                             break
                         dead = False
                         for k, t in enumerate(tg.elts):
-                            if k == idx[0] or not isinstance(t, ast.Name) or \
-                                    not isinstance(v.elts[k], ast.Constant):
+                            if k == idx[0] or not isinstance(t, ast.Name):
                                 continue
                             tp = path_of(t, s2.frame)
-                            truth = bool(v.elts[k].value)
+                            el = v.elts[k]
+                            if not isinstance(el, ast.Constant):
+                                # a tag that is an object - a canned reply
+                                # of the module, the reply carried by the
+                                # caught error - where the callback is only
+                                # reached with the tag being None
+                                hn = {h.name for h in ast.walk(
+                                    vf.ctx.func.node)
+                                    if isinstance(h, ast.ExceptHandler)
+                                    and h.name}
+                                obj = common.reply_constant_code(
+                                    e, el, vf.ctx) is not None or (
+                                    isinstance(el, ast.Attribute) and
+                                    el.attr == 'reply' and
+                                    isinstance(el.value, ast.Name) and
+                                    el.value.id in hn)
+                                if obj and holds(st, (True, tp + ' is None')):
+                                    dead = True
+                                continue
+                            truth = bool(el.value)
                             if holds(st, (not truth, tp)):
+                                dead = True
+                            if el.value is not None and \
+                                    holds(st, (True, tp + ' is None')):
                                 dead = True
                         if dead:
                             continue
